@@ -164,7 +164,7 @@ func runOne(family string, j job, seed int64) result {
 		if s.ID == "" {
 			s.ID = fmt.Sprintf("A%06d", j.idx)
 		}
-		rn := &addrfam.Runner{Sc: s, Rec: rec.New(), T: j.idx}
+		rn := &addrfam.Runner{Sc: s, Rec: rec.New(), T: j.idx, TmpDir: session.TLSDir}
 		rn.Run()
 		return result{idx: j.idx, lines: rn.Rec.Lines(), infra: rn.Infra}
 	case "line":
